@@ -31,6 +31,13 @@ def apply_edits(dst, edits):
         if not os.path.exists(p):
             return "file missing: " + rel
         s = open(p).read()
+        if isinstance(old, tuple) and old[0] == "all":      # rename-style edit: every occurrence (at least one)
+            import re as _re
+            pat_ = _re.compile(r"(?<![A-Za-z0-9_])" + _re.escape(old[1]) + r"(?![A-Za-z0-9_])")   # whole identifiers / dotted paths
+            if not pat_.search(s):
+                return "identifier %s does not occur in %s" % (old[1], rel)
+            open(p, "w").write(pat_.sub(new, s))
+            continue
         if s.count(old) != 1:
             return "anchor text occurs %d times in %s" % (s.count(old), rel)
         open(p, "w").write(s.replace(old, new))
